@@ -708,6 +708,13 @@ class Evaluator:
             for t2, v2 in zip(target.elts, v[1]):
                 self.assign(t2, v2, fr, st)
             return
+        if isinstance(target, ast.Attribute) and isinstance(target.value, ast.Name) \
+                and fr.env.get(target.value.id, ("?",))[0] == "new":
+            base = fr.env[target.value.id]
+            flds = dict(base[2])
+            flds[target.attr] = v
+            fr.env[target.value.id] = ("new", base[1], tuple(sorted(flds.items())))
+            return
         if isinstance(target, (ast.Attribute, ast.Subscript)):
             self.effects.append((TRUE, st, ("store", self.expr(target.value, fr),
                                             target.attr if isinstance(target, ast.Attribute) else "[]", v)))
